@@ -507,15 +507,23 @@ ProxyDo(c) ==
 SyncPending == \E x \in pend : x.k \in {"cut", "proxy", "shutdown"}
 
 ---------------------------------------------------------------------------
-(* internal (unobservable) steps of the implementation                     *)
-Internal ==
-  \/ \E id \in CallIds : CtxDeadline(id) \/ SetupExpired(id) \/ SetupCall(id) \/ CancelCall(id)
-                         \/ AcquireMem(id) \/ RecvAbort(id) \/ GetWorker(id) \/ HandlerSkipExpired(id)
-                         \/ SendResponse(id) \/ OrphanRecv(id) \/ OrphanDrop(id)
-  \/ \E c \in Clients : SendFromWriteQ(c) \/ ClientRecv(c) \/ ConnDrop(c) \/ MassCancel(c) \/ ConnectFail(c) \/ Connect(c)
-                        \/ RecvHdr(c) \/ ServerSend(c) \/ ServerSendLetsFin(c) \/ SrvConnStop(c)
-                        \/ CliCloseDo(c) \/ CutDo(c) \/ ProxyDo(c)
+(* internal (unobservable) steps of the implementation.  Mainline = what a  *)
+(* run without faults and timeouts consists of; Deviations = the rest.  (The *)
+(* split only orders the disjuncts: a depth-first trace validation tries the *)
+(* mainline steps first.)                                                    *)
+Deviations ==
+  \/ \E id \in CallIds : CtxDeadline(id) \/ SetupExpired(id) \/ HandlerSkipExpired(id) \/ RecvAbort(id)
+                         \/ OrphanDrop(id) \/ OrphanRecv(id)
+  \/ \E c \in Clients : ConnectFail(c) \/ SrvConnStop(c) \/ ConnDrop(c) \/ MassCancel(c)
+Mainline ==
+  \/ \E c \in Clients : CliCloseDo(c) \/ CutDo(c) \/ ProxyDo(c)
   \/ SrvShutdownDo \/ SrvCloseDo
+  \/ \E id \in CallIds : CancelCall(id)
+  \/ \E c \in Clients : ServerSendLetsFin(c) \/ ClientRecv(c) \/ ServerSend(c)
+  \/ \E id \in CallIds : SendResponse(id) \/ GetWorker(id) \/ AcquireMem(id)
+  \/ \E c \in Clients : RecvHdr(c) \/ SendFromWriteQ(c) \/ Connect(c)
+  \/ \E id \in CallIds : SetupCall(id)
+Internal == Deviations \/ Mainline
 
 (* steps visible at the API boundary (driven by the caller / handler / operator) *)
 Visible ==
